@@ -151,8 +151,15 @@ def local_provenance(prog, mod, fn, call):
 # ---------------------------------------------------------------------------
 # R-forward: a seeded function forwards its seed / generator
 def seeded_functions(prog):
-    return [f for f in prog.all_functions()
-            if 'seed' in f.all_params or 'rand' in f.all_params]
+    out = []
+    for f in prog.all_functions():
+        g = f
+        while g is not None:
+            if 'seed' in g.all_params or 'rand' in g.all_params:
+                out.append(f)
+                break
+            g = g.parent
+    return out
 
 
 def check_forward(prog, rep, rule='R-forward'):
@@ -576,7 +583,9 @@ def check_clock(prog, rep, rule='R-clock'):
                         if isinstance(t, ast.Name) and t.id not in tainted:
                             tainted.add(t.id)
                             changed = True
-        if not tainted and not any(is_clock_call(x) for x in own_nodes):
+        if not tainted and not any(is_clock_call(x) for x in own_nodes) and \
+                not any(_has_clock(x, tainted, is_clock_call)
+                        for x in own_nodes if isinstance(x, ast.stmt)):
             continue
         for x in own_nodes:
             if not isinstance(x, ast.stmt):
@@ -635,6 +644,12 @@ def _has_clock(node, tainted, is_clock_call):
     for x in ast.walk(node):
         if is_clock_call(x):
             return True
+        if isinstance(x, ast.Subscript) and isinstance(x.ctx, ast.Load) and \
+                isinstance(x.slice, ast.Constant) and x.slice.value == 't' \
+                and isinstance(x.value, ast.Name) and x.value.id == 'info':
+            par = getattr(x, '_parent', None)
+            if not isinstance(par, ast.FormattedValue):
+                return True
         if isinstance(x, ast.Name) and isinstance(x.ctx, ast.Load) and \
                 x.id in tainted:
             return True
